@@ -85,7 +85,8 @@ REQUIRED_COUNTERS = [
     "checkpoint_roundtrips",
     "masked_decisions",
 ]
-CASE_TIMEOUT_S = 900  # the longest case costs ~2 cpu-s; the machine is shared (load averages of several hundred seen)
+CASE_TIMEOUT_S = 3600  # the longest case costs ~2 cpu-s, but the machine is shared: with load averages of 200-500 a
+# single case was seen to take 839 s of wall time; a timeout is inconclusive, so the watchdog only has to catch real hangs
 
 EPS32 = float(np.finfo(np.float32).eps)
 ALGOS = ["NeuralUCB", "NeuralTS"]
@@ -827,8 +828,10 @@ def finalize(ctx):
             k = f[:90]
             failed[k] = failed.get(k, 0) + 1
     walls = sorted(r.get("extra", {}).get("case_wall_s", 0.0) for r in res.values())
+    slow_idx = max(res, key=lambda i: res[i].get("extra", {}).get("case_wall_s", 0.0)) if res else None
     return {
         "case_wall_s_median_max": [walls[len(walls) // 2], walls[-1]] if walls else None,
+        "slowest_case": None if slow_idx is None else {"case": ctx["cases"][int(slow_idx)], "counters": res[slow_idx].get("counters")},
         "max_residual_over_tolerance_best_reference": max(ratios) if ratios else None,
         "max_cond_of_reference_gram": max(conds) if conds else None,
         "ops_that_raised(info)": dict(sorted(failed.items(), key=lambda kv: -kv[1])[:8]),
